@@ -22,7 +22,8 @@ class C01(PtgCheck):
     id = "C01"
     prop_file = "theories/Properties/Properties_C01.v"
     theorems = ("C01_no_task_begins_twice", "C01_only_instances_run", "C01_begin_after_predecessors_ended",
-                "C01_quiescent_all_done", "C01_complete_run_executes_each_instance_once", "C01_engine_generic")
+                "C01_quiescent_all_done", "C01_complete_run_executes_each_instance_once", "C01_progress",
+                "C01_engine_generic")
     mode = "inst"
     level_text = ("Theorems over an AST of the JDF subset (PTG/PTGDefs.v) and an abstract dataflow engine (PTG/Engine.v): for "
                   "EVERY program accepted by wf_program and EVERY schedule (arbitrary list of Startup / StartupOne / Begin / End events, "
